@@ -8,6 +8,7 @@ from ..cfg import CFG, walk_no_defs, header_walk
 from ..dataflow import ReachingDefs, containing_node
 from ..report import MISSING
 from ..model import AnalysisError, ClassInfo, FunctionInfo, unparse
+from ..symeval import SymEval
 from . import cli_common as cc
 
 LEVEL = "other"
@@ -488,6 +489,13 @@ def exclusions(ctx):
         in_handler = any(isinstance(a, ast.ExceptHandler) for a in astq.ancestors(pmg, r))
         guards = [a for a in astq.ancestors(pmg, r) if isinstance(a, ast.If)]
         chan = any("channel" in {x.attr for x in ast.walk(gi.test) if isinstance(x, ast.Attribute)} for gi in guards)
+        if not chan and not in_handler:
+            # the channel read through a local: decide on the forward-substituted path condition
+            try:
+                gsym = SymEval(prog, g).run().guard_of(r)
+                chan = any(nm.endswith(".channel") or nm == "channel" for nm in S.symbols(gsym))
+            except Exception:
+                chan = False
         ctx.check(in_handler or chan, R, g, r, "__getitem__ fails only for unreadable input or a channel mismatch",
                   "__getitem__ raises under a condition that is neither a read error nor a channel mismatch")
     ln = prog.own_method(ds, "__len__")
@@ -546,7 +554,15 @@ def config_syntax(ctx):
               "the argument is tried as a file path and otherwise used as the inline string",
               "_config_type no longer falls back to the inline string when the argument is not a readable path")
     loads = [c for c in astq.func_calls(ct) if astq.is_name(c.func, "_load_config")]
-    ctx.check(len(loads) == 1 and len(loads[0].args) == 1 and astq.is_name(loads[0].args[0], p), R, ct, loads[0] if loads else MISSING(ct.node),
+    def _is_text(a_):
+        # the parameter itself, or a local that only ever holds the parameter or what was read from the opened file
+        if astq.is_name(a_, p):
+            return True
+        if not isinstance(a_, ast.Name):
+            return False
+        vals = [n_.value for n_ in ct.body_nodes() if isinstance(n_, ast.Assign) and any(astq.is_name(t_, a_.id) for t_ in n_.targets)]
+        return bool(vals) and all(astq.is_name(v_, p) or (isinstance(v_, ast.Call) and astq.attr_call(v_, "read") and not v_.args) for v_ in vals)
+    ctx.check(len(loads) == 1 and len(loads[0].args) == 1 and _is_text(loads[0].args[0]), R, ct, loads[0] if loads else MISSING(ct.node),
               "file contents and inline strings go through the single _load_config",
               "_config_type does not parse with the single _load_config(<string>)")
     # both definitions of _load_config parse a superset of JSON
